@@ -20,7 +20,7 @@ MODS = [ttcheck.module_name("C23", g, N, p) for g in range(4) for N in (1, 2, 3)
 
 def main(c):
     ttcheck.run(c, "C23", groups=[0, 1, 2, 3], parts=PARTS, spec=specnum23,
-                spec_files=[os.path.abspath(os.path.join(C02COQ, f)) for f in ("TensorIndex.v", "NsatzTac.v", "TensorTactics.v")] + ["C23Spec.v"],
+                spec_files=[os.path.abspath(os.path.join(C02COQ, f)) for f in ("TensorIndex.v", "NsatzTac.v", "TensorTactics.v")] + ["C23Spec.v", "C23Tactics.v"],
                 prop_files_quick=["Properties_C23.v"], prop_files_thorough=["Properties_C23_full.v"],
                 conditional={"DS_DF_from_DS_DEGL": ("Properties_C23_dsdf.v", "Properties_C23_dsdf_refuted.v")})
     c.coverage["rule"] = ("every operation of the registry (props/C23/trace.cxx) x N=1,2,3 (quick: N=1,2 and the cheap 3D instances); seeded inputs per operation: "
